@@ -364,6 +364,44 @@ def random_history(rng):
     return {"ops": ops}
 
 
+def concat_cases(rng, count):
+    """Concatenated storage (DrillholeGroup): holes with depth data and/or from-to data (hence one or two property groups),
+    then removals of a hole or of one data set through either entry point, optionally with allow_delete switched off.
+    Oracle only (the concatenated tables are C04's model); `case_term` returns None for these."""
+    cases = []
+    fixed = [
+        {"holes": [[2, 2], [2, 2], [1, 1]], "steps": [{"t": "hole", "k": 0, "entry": "ws", "protect": False}]},
+        {"holes": [[2, 2], [2, 2], [1, 1]], "steps": [{"t": "hole", "k": 0, "entry": "parent", "protect": False}]},
+        {"holes": [[2, 0], [1, 0]], "steps": [{"t": "hole", "k": 0, "entry": "ws", "protect": True}]},
+        {"holes": [[2, 0], [1, 0]], "steps": [{"t": "data", "k": 0, "name": "d0", "entry": "ws", "protect": True}]},
+        {"holes": [[2, 2], [1, 1]], "steps": [{"t": "data", "k": 0, "name": "i1", "entry": "ws", "protect": False},
+                                                {"t": "hole", "k": 0, "entry": "ws", "protect": False}]},
+    ]
+    cases += [{"concat": c} for c in fixed]
+    for _ in range(count):
+        holes = [[rng.range(0, 2), rng.range(0, 2)] for _ in range(rng.range(1, 3))]
+        steps = []
+        alive = list(range(len(holes)))
+        names = {k: [f"d{j}" for j in range(h[0])] + [f"i{j}" for j in range(h[1])] for k, h in enumerate(holes)}
+        for _ in range(rng.range(1, 3)):
+            if not alive:
+                break
+            k = _pick(rng, alive)
+            protect = rng.chance(30)
+            entry = "ws" if protect or rng.chance(60) else "parent"
+            if names[k] and rng.chance(50):
+                nm = _pick(rng, names[k])
+                steps.append({"t": "data", "k": k, "name": nm, "entry": entry, "protect": protect})
+                if not protect:
+                    names[k].remove(nm)
+            else:
+                steps.append({"t": "hole", "k": k, "entry": entry, "protect": protect})
+                if not protect:
+                    alive.remove(k)
+        cases.append({"concat": {"holes": holes, "steps": steps}})
+    return cases
+
+
 def generate(rng, tier):
     sysc = systematic_cases()
     if tier == "quick":
@@ -377,6 +415,7 @@ def generate(rng, tier):
         nrand = 6000
     for _ in range(nrand):
         cases.append(random_history(rng))
+    cases += concat_cases(rng, 25 if tier == "quick" else 600)
     return cases
 
 
@@ -539,7 +578,145 @@ def _reopen_view(run, ws2):
     return sorted(rows)
 
 
+OBJECT_LEVEL = ("Surveys", "Trace", "Property Group IDs", "property_group_ids")
+
+
+def _concat_snapshot(ws, group, names):
+    """names: uid -> readable name.  Everything a removal may or may not touch, in readable form."""
+
+    def nm(x):
+        import uuid
+
+        if isinstance(x, bytes):
+            x = x.decode()
+        try:
+            return names.get(uuid.UUID(str(x).strip("{}")), "?" + str(x)[:8])
+        except ValueError:
+            return str(x)
+
+    snap = {"index": {}, "sizes": {}, "holes": {}, "object_ids": sorted(nm(u) for u in (group.concatenated_object_ids or []))}
+    for label, rows in (group.index or {}).items():
+        snap["index"][label] = sorted([nm(r["Object ID"]), nm(r["Data ID"]), int(r["Start index"]), int(r["Size"])] for r in rows)
+    for label, vals in (group.data or {}).items():
+        snap["sizes"][label] = int(len(vals))
+    live_ids = {str(u.decode() if isinstance(u, bytes) else u).strip("{}") for u in (group.concatenated_object_ids or [])}
+    for child in group.children:
+        if str(child.uid) not in live_ids:
+            # removed from the concatenated tables but still listed by the group: do not touch it (get_data_list() on it
+            # appends an empty record to the concatenated attributes and the file can no longer be opened)
+            snap["holes"][child.name] = {"data": ["<removed but listed>"], "groups": {}, "values": {}}
+            continue
+        dnames = sorted(n for n in child.get_data_list() if n[:1] in ("d", "i"))
+        vals = {}
+        for n in dnames:
+            d = (child.get_data(n) or [None])[0]
+            vals[n] = None if d is None or d.values is None else [None if v != v else float(v) for v in list(d.values)[:4]]
+        snap["holes"][child.name] = {
+            "data": dnames,
+            "groups": {pg.name: sorted(nm(u) for u in (pg.properties or [])) for pg in (child.property_groups or [])},
+            "values": vals,
+        }
+    snap["lookups"] = sorted(nm(u) for u in names if ws.get_entity(u)[0] is not None)
+    return snap
+
+
+def _concat_file(path, names):
+    import h5py
+
+    found = {"index": [], "attributes": []}
+    with h5py.File(path, "r") as h5:
+        base = h5[list(h5)[0]]
+        for grp in base["Groups"].values():
+            if "Concatenated Data" not in grp:
+                continue
+            concat = grp["Concatenated Data"]
+            for label, dset in concat["Index"].items():
+                if label in OBJECT_LEVEL:
+                    continue
+                for row in dset[:]:
+                    oid = row["Object ID"]
+                    oid = oid.decode() if isinstance(oid, bytes) else str(oid)
+                    found["index"].append([label, oid.strip("{}")])
+            blob = ""
+            for key in ("Attributes", "Attributes Jsons"):
+                if key in concat:
+                    b = concat[key][()]
+                    blob += b.decode() if isinstance(b, bytes) else str(b)
+            found["attributes"] = sorted(nm for uid, nm in names.items() if str(uid) in blob)
+    found["index"] = sorted([lab, names.get(__import__("uuid").UUID(o), "?" + o[:8])] for lab, o in found["index"])
+    return found
+
+
+def _drive_concat(spec, work):
+    import os
+
+    import numpy as np
+    from geoh5py import Workspace
+    from geoh5py.groups import DrillholeGroup
+    from geoh5py.objects import Drillhole
+
+    path = os.path.join(work, "c05_concat.geoh5")
+    if os.path.exists(path):
+        os.remove(path)
+    res = {"steps": []}
+    names = {}
+    try:
+        with Workspace.create(path, version=2.0, ga_version="4.2") as ws:
+            grp = DrillholeGroup.create(ws, name="G")
+            for k, (nd, ni) in enumerate(spec["holes"]):
+                well = Drillhole.create(ws, collar=np.r_[10.0 * k, 0.0, 0.0], parent=grp, name=f"h{k}",
+                                        surveys=np.c_[np.linspace(0, 100, 5), np.ones(5) * 45.0, np.linspace(-89, -75, 5)])
+                if nd:
+                    well.add_data({f"d{j}": {"depth": np.arange(6.0), "values": np.arange(6.0) + 100 * k + 10 * j} for j in range(nd)})
+                if ni:
+                    ft = np.c_[np.arange(0.0, 5.0), np.arange(1.0, 6.0)]
+                    well.add_data({f"i{j}": {"from-to": ft, "values": np.arange(5.0) + 100 * k + 10 * j + 50} for j in range(ni)})
+        with Workspace(path, version=2.0) as ws:
+            grp = ws.get_entity("G")[0]
+            for well in grp.children:
+                names[well.uid] = well.name
+                for ch in well.children:
+                    names[ch.uid] = f"{well.name}.{ch.name}"
+                for pg in well.property_groups or []:
+                    names[pg.uid] = f"{well.name}.pg:{pg.name}"
+            well = ch = pg = None  # loop variables must not keep anything alive
+            res["before"] = _concat_snapshot(ws, grp, names)
+            for st in spec["steps"]:
+                well = ws.get_entity(f"h{st['k']}")[0]
+                ent = well if st["t"] == "hole" else (well.get_data(st["name"]) or [None])[0] if well is not None else None
+                if ent is None:
+                    res["steps"].append({"out": "missing"})
+                    continue
+                try:
+                    if st["protect"]:
+                        ent.allow_delete = False
+                    if st["entry"] == "ws":
+                        ws.remove_entity(ent)
+                    else:
+                        ent.parent.remove_children([ent])
+                    out = "ok"
+                except UserWarning:
+                    out = "refused"
+                except Exception as e:  # noqa: BLE001
+                    out = f"error:{type(e).__name__}:{str(e)[:80]}"
+                del ent, well
+                import gc
+
+                gc.collect()  # the caller has dropped its own references
+                res["steps"].append({"out": out, "snap": _concat_snapshot(ws, grp, names)})
+        res["file"] = _concat_file(path, {u: n for u, n in names.items()})
+        with Workspace(path, version=2.0) as ws:
+            grp = ws.get_entity("G")[0]
+            res["reopened"] = _concat_snapshot(ws, grp, names)
+    finally:
+        if os.path.exists(path):
+            os.remove(path)
+    return res
+
+
 def drive_one(case, work):
+    if "concat" in case:
+        return _drive_concat(case["concat"], work)
     import os
 
     import h5py
@@ -681,6 +858,8 @@ def final_ser(obs):
 
 
 def case_term(case, obs):
+    if "concat" in case:
+        return None  # concatenated storage: oracle only
     if "per_op" not in obs or "reopened" not in obs:
         return "false"
     fin = final_ser(obs)
@@ -691,6 +870,8 @@ def case_term(case, obs):
 
 
 def model_term(case):
+    if "concat" in case:
+        return None
     return "(let (l, w) := run_obs cur init %s in (l, reopen_view (close_effect w)))" % _hist_term(case)
 
 
@@ -699,9 +880,112 @@ def _fail(key, what):
     return {"key": key, "what": what[:400]}
 
 
+def _oracle_concat(spec, obs):
+    """Property text on concatenated holes: refusal changes nothing; a removed hole / data leaves no trace in the tables,
+    the attributes, the look-ups and the file; survivors keep their data."""
+    fails, seen = [], set()
+
+    def add(key, what):
+        if key not in seen:
+            seen.add(key)
+            fails.append(_fail(key, what))
+
+    if "steps" not in obs or "before" not in obs:
+        return [_fail("driver-incomplete", json.dumps(obs)[:300])]
+    prev = obs["before"]
+    gone = set()  # readable names (hK, hK.name, hK.pg:...) that must have disappeared
+    protected = set()
+    for i, (st, ob) in enumerate(zip(spec["steps"], obs["steps"])):
+        out = ob["out"]
+        if out == "missing":
+            continue
+        snap = ob["snap"]
+        hole = f"h{st['k']}"
+        target = hole if st["t"] == "hole" else f"{hole}.{st['name']}"
+        if st["protect"]:
+            protected.add(target)
+        if target in protected and st["entry"] == "ws":
+            if out != "refused":
+                add("concat-allow-delete-ignored", f"step {i} {st}: removal of protected {target} through the workspace was not refused ({out})")
+            if snap != prev and out == "refused":
+                add("concat-refused-changed-state", f"step {i} {st}: refused, yet the drillhole group changed")
+            if out == "refused":
+                prev = snap
+                continue
+        if out.startswith("error"):
+            add("concat-op-raised", f"step {i} {st}: {out}")
+            prev = snap
+            continue
+        if out == "refused":
+            add("concat-refused-unprotected", f"step {i} {st}: refused although allow_delete is on")
+            prev = snap
+            continue
+        # removed: collect what has to be gone
+        if st["t"] == "hole":
+            newly = {n for n in prev["lookups"] if n == hole or n.startswith(hole + ".")} | {hole}
+        else:
+            newly = {target}
+            for pg, members in prev["holes"].get(hole, {}).get("groups", {}).items():
+                if members == [target]:
+                    newly.add(f"{hole}.pg:{pg}")
+        gone |= newly
+        left_rows = [[lab, r] for lab, rows in snap["index"].items() if lab not in OBJECT_LEVEL
+                     for r in rows if r[0] in gone or r[1] in gone]
+        if left_rows:
+            add("concat-index-keeps-removed", f"step {i} {st}: index rows of removed entities remain: {left_rows[:4]}")
+        still = [n for n in snap["lookups"] if n in gone]
+        still_holes = [n for n in still if "." not in n]
+        if still_holes:  # same root cause as concat-hole-still-listed: the group keeps the removed hole alive
+            add("concat-hole-still-listed", f"step {i} {st}: removed hole(s) {still_holes} are still found by identifier")
+        if [n for n in still if "." in n]:
+            add("concat-lookup-yields-removed", f"step {i} {st}: look-up by identifier still yields {[n for n in still if '.' in n]}")
+        if st["t"] == "hole" and hole in snap["holes"]:
+            add("concat-hole-still-listed", f"step {i} {st}: {hole} is still a child of the group")
+        if st["t"] == "data" and st["name"] in snap["holes"].get(hole, {}).get("data", []):
+            add("concat-data-still-listed", f"step {i} {st}: {target} is still listed by its hole")
+        for h, rec in snap["holes"].items():
+            for pg, members in rec["groups"].items():
+                if any(m in gone for m in members):
+                    add("concat-pg-lists-removed-data", f"step {i} {st}: group {pg} of {h} lists removed data {members}")
+        # survivors untouched
+        for h, rec in prev["holes"].items():
+            if h in gone:
+                continue
+            now = snap["holes"].get(h)
+            if now is None:
+                add("concat-survivor-lost", f"step {i} {st}: hole {h} disappeared")
+                continue
+            want_data = [d for d in rec["data"] if f"{h}.{d}" not in gone]
+            if [d for d in now["data"] if d[:1] in ("d", "i")] != [d for d in want_data if d[:1] in ("d", "i")]:
+                add("concat-survivor-data-changed", f"step {i} {st}: data of {h} are {now['data']}, expected {want_data}")
+            for d, v in rec["values"].items():
+                if f"{h}.{d}" not in gone and now["values"].get(d) != v:
+                    add("concat-survivor-values-changed", f"step {i} {st}: values of {h}.{d} are {now['values'].get(d)}, were {v}")
+        prev = snap
+    # file and re-open
+    f = obs.get("file", {})
+    bad = [r for r in f.get("index", []) if r[1] in gone]
+    if bad:
+        add("concat-file-keeps-removed", f"file: index rows of removed holes remain: {bad[:4]}")
+    bad = [n for n in f.get("attributes", []) if n in gone]
+    if bad:
+        add("concat-file-keeps-removed", f"file: concatenated attributes still mention {bad[:6]}")
+    ro = obs.get("reopened")
+    if ro is not None:
+        back = [n for n in ro["lookups"] if n in gone] + [h for h in ro["holes"] if h in gone]
+        if back:
+            add("concat-removed-back-after-reopen", f"after re-open {back[:6]} are found again")
+        for h, rec in prev["holes"].items():
+            if h not in gone and ro["holes"].get(h, {}).get("values") != rec["values"]:
+                add("concat-survivor-values-changed", f"after re-open the data of {h} differ: {ro['holes'].get(h, {}).get('values')} vs {rec['values']}")
+    return fails
+
+
 def oracle(case, obs):
     if "crash" in obs:
         return [_fail("driver-crash", obs["crash"])]
+    if "concat" in case:
+        return _oracle_concat(case["concat"], obs)
     if "per_op" not in obs:
         return [_fail("driver-incomplete", json.dumps(obs)[:300])]
     fails = []
@@ -850,6 +1134,8 @@ def _file_checks(sp, o, where, add):
 
 
 def nontrivial(case, obs):
+    if "concat" in case:
+        return True
     sp = Spec()
     for op in case["ops"]:
         if op["op"] in ("remove_ws", "remove_parent") and sp.attached(op["e"]):
@@ -867,7 +1153,10 @@ def nontrivial(case, obs):
 
 def histogram(cases, obs):
     h = {"ops": {}, "length": {}, "systematic": 0, "outcomes": {}, "entities": {}, "removals_with_descendants": 0, "data_in_groups": {}}
+    h["concatenated"] = sum(1 for c in cases if "concat" in c)
     for c, o in zip(cases, obs):
+        if "concat" in c:
+            continue
         if c.get("sys"):
             h["systematic"] += 1
         L = str(len(c["ops"]) // 5 * 5)
